@@ -511,17 +511,15 @@ theorem eval_isolated {Cell E R : Type} (ev : AbsEval Cell E R) (hf : Frame ev)
   isolation (evalMachine ev) (fun _ => True) (eval_writes_private ev hf).1 ⟨shared, threads⟩
     (fun t _ => by cases t <;> trivial) sched
 
-/-! ### INSTANTIATION WITH `Yaql.Eval` - to be filled after the merge of C04
+/-! ### INSTANTIATION WITH `Yaql.Eval`
 
-`Model/Eval.lean` (builder C04) is not on this branch.  After the merge:
-
-```
-def evalOfModel : AbsEval Yaql.Context.Cell Yaql.Eval.Config Yaql.Eval.Outcome :=
-  ⟨fun cells cfg => Yaql.Eval.smallStep cells cfg⟩
-theorem eval_frame : Frame evalOfModel := Yaql.Props.C04.frame ...
-theorem eval_model_isolated := eval_isolated evalOfModel eval_frame
-```
-Nothing else in this file depends on it.
+Done in `Props/C18Eval.lean` (it imports `Props/C04.lean`).  `Model/Eval.lean` turned out to be purely
+functional - a context is an immutable chain of frames and `eval` returns a value, not a store - so there is
+no cell store to instantiate `AbsEval` with.  `C18Eval` therefore makes the evaluator itself a `Sched` machine
+(`refMachine`, one step = one statement in `child :: shared`), proves `refMachine_readOnly` and
+`eval_model_isolated` from `isolation`, and uses `C04.frame` / `C04.frame_root` for the contexts a statement
+can hand back (`eval_model_returns_framed`).  `eval_writes_private` above stays the statement for evaluators
+over a mutable store (the shape of `contexts.py`), with `Frame` as its explicit hypothesis.
 -/
 
 /-- non-vacuity of the frame hypothesis: a toy evaluator that counts down, appending one cell of its
